@@ -299,6 +299,7 @@ theorem effectiveVersion_obj {d : Json} {v : Int} (h : effectiveVersion d = some
     split at h
     · rename_i hn; cases h; simp [hn]
     · rename_i i hi; cases h; simp [hi, versionInt]
+    · rename_i hi; cases h; simp [hi, versionInt]
     · cases h
   | _ => simp [effectiveVersion] at h
 
